@@ -155,7 +155,7 @@ def judge(case):
         for loc, m in locs:
             rd_v = ColrReader(vf, location=loc)
             rd_s = ColrReader(statics[m])
-            gs_v = vf.getGlyphSet(location=loc) if loc else vf.getGlyphSet()
+            gs_v = rd_v.gs
             for g in case["glyphs"]:
                 gv, gs_ = shape(vf, g["cps"]), shape(statics[m], g["cps"])
                 if not gv or not gs_ or len(gv) != 1 or len(gs_) != 1:
